@@ -114,6 +114,7 @@ enum Handle {
 }
 
 struct St {
+    walks: HashMap<String, vfs::WalkDirIterator>,
     paths: HashMap<String, VfsPath>,
     handles: HashMap<String, Handle>,
     ctls: HashMap<String, Arc<Mutex<Ctl>>>,
@@ -125,16 +126,21 @@ mod adrv {
     use super::{hex, unhex};
     use async_std::io::prelude::{ReadExt, SeekExt, WriteExt};
     use async_std::task::block_on;
+    use futures::stream::StreamExt;
     use std::collections::HashMap;
     use std::io::SeekFrom;
-    use vfs::async_vfs::{AsyncMemoryFS, AsyncVfsPath, SeekAndRead};
+    use vfs::async_vfs::{AsyncAltrootFS, AsyncMemoryFS, AsyncOverlayFS, AsyncVfsPath, SeekAndRead};
     use vfs::error::VfsErrorKind;
-    use vfs::VfsError;
+    use vfs::{VfsError, VfsFileType, VfsResult};
+
+    type Walk = std::pin::Pin<Box<dyn futures::Stream<Item = VfsResult<AsyncVfsPath>> + Send>>;
 
     #[derive(Default)]
     pub struct ASt {
         pub paths: HashMap<String, AsyncVfsPath>,
         pub readers: HashMap<String, Box<dyn SeekAndRead + Send + Unpin>>,
+        pub writers: HashMap<String, Box<dyn async_std::io::Write + Send + Unpin>>,
+        pub walks: HashMap<String, Walk>,
     }
     fn err(e: &VfsError) -> String {
         let k = match e.kind() {
@@ -149,36 +155,134 @@ mod adrv {
         };
         format!("err:{}:{}", k, hex(e.path().as_bytes()))
     }
+    fn unit(r: VfsResult<()>) -> String {
+        match r { Ok(()) => "ok".into(), Err(e) => err(&e) }
+    }
+    fn b(r: VfsResult<bool>) -> String {
+        match r { Ok(x) => format!("ok:{}", x), Err(e) => err(&e) }
+    }
     /// returns None when the line does not concern an async path/handle
     pub fn exec(st: &mut ASt, t: &[&str]) -> Option<String> {
+        let has = |st: &ASt, k: &str| st.paths.contains_key(k);
+        if t[0] == "fs" {
+            let root = match t[2] {
+                "amem" => AsyncVfsPath::new(AsyncMemoryFS::new()),
+                "aalt" => AsyncVfsPath::new(AsyncAltrootFS::new(st.paths[t[3]].clone())),
+                "aovl" => { let layers: Vec<AsyncVfsPath> = t[3..].iter().map(|k| st.paths[*k].clone()).collect(); AsyncVfsPath::new(AsyncOverlayFS::new(&layers)) }
+                _ => return None,
+            };
+            st.paths.insert(t[1].into(), root);
+            return Some("ok".into());
+        }
+        if t[0] == "reset_async" { *st = ASt::default(); return Some("ok".into()); }
         match t[0] {
-            "fs" if t[2] == "amem" => { st.paths.insert(t[1].into(), AsyncVfsPath::new(AsyncMemoryFS::new())); Some("ok".into()) }
-            "join" if st.paths.contains_key(t[2]) => Some(match st.paths[t[2]].join(String::from_utf8(unhex(t[3])).unwrap()) {
-                Ok(v) => { let s = format!("ok:{}", hex(v.as_str().as_bytes())); st.paths.insert(t[1].into(), v); s }
-                Err(e) => err(&e),
-            }),
-            "write" if st.paths.contains_key(t[1]) => Some(block_on(async {
-                match st.paths[t[1]].create_file().await {
-                    Ok(mut h) => match h.write_all(&unhex(t[2])).await { Ok(()) => { drop(h); "ok".to_string() } Err(e) => format!("ioerr:{:?}", e.kind()) },
-                    Err(e) => err(&e),
-                }
-            })),
-            "hopen" if st.paths.contains_key(t[2]) => Some(block_on(async {
-                match st.paths[t[2]].open_file().await { Ok(h) => { st.readers.insert(t[1].into(), h); "ok".to_string() } Err(e) => err(&e) }
-            })),
-            "hread" if st.readers.contains_key(t[1]) => Some(block_on(async {
+            "join" | "parent" | "root" if has(st, t[2]) => {
+                let r = match t[0] { "join" => st.paths[t[2]].join(String::from_utf8(unhex(t[3])).unwrap()), "parent" => Ok(st.paths[t[2]].parent()), _ => Ok(st.paths[t[2]].root()) };
+                return Some(match r { Ok(v) => { let s = format!("ok:{}", hex(v.as_str().as_bytes())); st.paths.insert(t[1].into(), v); s } Err(e) => err(&e) });
+            }
+            "hopen" if has(st, t[2]) => {
+                let p = st.paths[t[2]].clone();
+                return Some(block_on(async {
+                    match t[3] {
+                        "open" => match p.open_file().await { Ok(h) => { st.readers.insert(t[1].into(), h); "ok".to_string() } Err(e) => err(&e) },
+                        "create" => match p.create_file().await { Ok(h) => { st.writers.insert(t[1].into(), h); "ok".to_string() } Err(e) => err(&e) },
+                        _ => match p.append_file().await { Ok(h) => { st.writers.insert(t[1].into(), h); "ok".to_string() } Err(e) => err(&e) },
+                    }
+                }));
+            }
+            "wopen" if has(st, t[2]) => {
+                let p = st.paths[t[2]].clone();
+                return Some(block_on(async { match p.walk_dir().await { Ok(w) => { st.walks.insert(t[1].into(), Box::pin(w)); "ok".to_string() } Err(e) => err(&e) } }));
+            }
+            "wnext" if st.walks.contains_key(t[1]) => {
+                return Some(block_on(async { match st.walks.get_mut(t[1]).unwrap().next().await { None => "ok:none".to_string(), Some(Ok(v)) => format!("ok:some:{}", hex(v.as_str().as_bytes())), Some(Err(e)) => err(&e) } }));
+            }
+            "wdrop" if st.walks.contains_key(t[1]) => { st.walks.remove(t[1]); return Some("ok".into()); }
+            "hread" if st.readers.contains_key(t[1]) => return Some(block_on(async {
                 let n: usize = t[2].parse().unwrap();
                 let mut buf = vec![0u8; n];
                 match st.readers.get_mut(t[1]).unwrap().read(&mut buf).await { Ok(k) => format!("ok:{}:{}", k, hex(&buf[..k.min(n)])), Err(e) => format!("ioerr:{:?}", e.kind()) }
             })),
-            "hseek" if st.readers.contains_key(t[1]) => Some(block_on(async {
+            "hseek" if st.readers.contains_key(t[1]) => return Some(block_on(async {
                 let off: i128 = t[3].parse().unwrap();
                 let sf = match t[2] { "start" => SeekFrom::Start(off as u64), "end" => SeekFrom::End(off as i64), _ => SeekFrom::Current(off as i64) };
                 match st.readers.get_mut(t[1]).unwrap().seek(sf).await { Ok(n) => format!("ok:{}", n), Err(e) => format!("ioerr:{:?}", e.kind()) }
             })),
-            "hdrop" if st.readers.contains_key(t[1]) => { st.readers.remove(t[1]); Some("ok".into()) }
-            _ => None,
+            "hwrite" if st.writers.contains_key(t[1]) => return Some(block_on(async {
+                match st.writers.get_mut(t[1]).unwrap().write(&unhex(t[2])).await { Ok(n) => format!("ok:{}", n), Err(e) => format!("ioerr:{:?}", e.kind()) }
+            })),
+            "hflush" if st.writers.contains_key(t[1]) => return Some(block_on(async {
+                match st.writers.get_mut(t[1]).unwrap().flush().await { Ok(()) => "ok".to_string(), Err(e) => format!("ioerr:{:?}", e.kind()) }
+            })),
+            "hdrop" if st.readers.contains_key(t[1]) || st.writers.contains_key(t[1]) => { st.readers.remove(t[1]); st.writers.remove(t[1]); return Some("ok".into()); }
+            _ => {}
         }
+        if t.len() < 2 || !has(st, t[1]) { return None; }
+        let p = st.paths[t[1]].clone();
+        let q = if t.len() > 2 && has(st, t[2]) { Some(st.paths[t[2]].clone()) } else { None };
+        Some(block_on(async {
+            match t[0] {
+                "create_dir" => unit(p.create_dir().await),
+                "create_dir_all" => unit(p.create_dir_all().await),
+                "remove_file" => unit(p.remove_file().await),
+                "remove_dir" => unit(p.remove_dir().await),
+                "remove_dir_all" => unit(p.remove_dir_all().await),
+                "exists" => b(p.exists().await),
+                "is_file" => b(p.is_file().await),
+                "is_dir" => b(p.is_dir().await),
+                "filename" => format!("ok:{}", hex(p.filename().as_bytes())),
+                "is_root" => format!("ok:{}", p.is_root()),
+                "metadata" => match p.metadata().await { Ok(m) => format!("ok:{}:{}", if m.file_type == VfsFileType::File { "file" } else { "dir" }, m.len), Err(e) => err(&e) },
+                "copy_file" => unit(p.copy_file(q.as_ref().unwrap()).await),
+                "move_file" => unit(p.move_file(q.as_ref().unwrap()).await),
+                "move_dir" => unit(p.move_dir(q.as_ref().unwrap()).await),
+                "copy_dir" => match p.copy_dir(q.as_ref().unwrap()).await { Ok(n) => format!("ok:{}", n), Err(e) => err(&e) },
+                "read_to_string" => match p.read_to_string().await { Ok(s) => format!("ok:{}", hex(s.as_bytes())), Err(e) => err(&e) },
+                "read_dir" => match p.read_dir().await {
+                    Ok(mut it) => { let mut v: Vec<String> = vec![]; while let Some(x) = it.next().await { v.push(hex(x.as_str().as_bytes())); } v.sort(); format!("ok:[{}]", v.join(",")) }
+                    Err(e) => err(&e),
+                },
+                "walk_dir" => match p.walk_dir().await {
+                    Ok(it) => {
+                        let mut it = Box::pin(it);
+                        let base = p.as_str().to_string();
+                        let (mut seen, mut items, mut order_ok): (Vec<String>, Vec<String>, bool) = (vec![], vec![], true);
+                        while let Some(x) = it.next().await {
+                            match x {
+                                Ok(v) => { let s = v.as_str().to_string(); let par = v.parent().as_str().to_string(); if par != base && !seen.contains(&par) { order_ok = false; } seen.push(s.clone()); items.push(hex(s.as_bytes())); }
+                                Err(e) => items.push(err(&e)),
+                            }
+                            if items.len() > 10000 { break; }
+                        }
+                        items.sort();
+                        format!("ok:[{}]:order={}", items.join(","), order_ok)
+                    }
+                    Err(e) => err(&e),
+                },
+                "write" | "append" => {
+                    let data = unhex(t[2]);
+                    match if t[0] == "write" { p.create_file().await } else { p.append_file().await } {
+                        Ok(mut h) => match h.write_all(&data).await { Ok(()) => { drop(h); "ok".to_string() } Err(e) => format!("ioerr:{:?}", e.kind()) },
+                        Err(e) => err(&e),
+                    }
+                }
+                "read" => {
+                    let chunk: usize = t[2].parse().unwrap();
+                    match p.open_file().await {
+                        Ok(mut h) => {
+                            let mut got = vec![];
+                            loop {
+                                let mut buf = vec![0u8; chunk];
+                                match h.read(&mut buf).await { Ok(0) => break format!("ok:{}", hex(&got)), Ok(n) => got.extend_from_slice(&buf[..n]), Err(e) => break format!("ioerr:{:?}", e.kind()) }
+                                if got.len() > 1 << 20 { break "ok:toolong".to_string(); }
+                            }
+                        }
+                        Err(e) => err(&e),
+                    }
+                }
+                x => panic!("SCRIPT: async op {} not supported", x),
+            }
+        }))
     }
 }
 
@@ -360,6 +464,13 @@ fn exec(st: &mut St, t: &[&str]) -> String {
             _ => panic!("SCRIPT: hread on non-reader"),
         },
         "hdrop" => { st.handles.remove(t[1]); "ok".into() }
+        "wopen" => match p(st, t[2]).walk_dir() { Ok(w) => { st.walks.insert(t[1].to_string(), w); "ok".into() } Err(e) => err(&e) },
+        "wnext" => match st.walks.get_mut(t[1]).expect("SCRIPT: no walk handle").next() {
+            None => "ok:none".into(),
+            Some(Ok(v)) => format!("ok:some:{}", hex(v.as_str().as_bytes())),
+            Some(Err(e)) => err(&e),
+        },
+        "wdrop" => { st.walks.remove(t[1]); "ok".into() }
         x => panic!("SCRIPT: unknown op {}", x),
     }
 }
@@ -380,7 +491,7 @@ fn run_par(st: &St, sched: Vec<usize>, progs: Vec<Vec<(usize, String)>>) -> Vec<
             let paths = st.paths.clone();
             let ctls = st.ctls.clone();
             hs.push(scope.spawn(move || {
-                let mut local = St { paths, handles: HashMap::new(), ctls, tmp: vec![] };
+                let mut local = St { walks: HashMap::new(), paths, handles: HashMap::new(), ctls, tmp: vec![] };
                 let mut res = vec![];
                 vfs::verif_hooks::register(tid);
                 for (ln, line) in prog {
@@ -404,7 +515,7 @@ fn main() {
     std::panic::set_hook(Box::new(|_| {}));
     let args: Vec<String> = std::env::args().collect();
     let text = std::fs::read_to_string(&args[1]).expect("script file");
-    let mut st = St { paths: HashMap::new(), handles: HashMap::new(), ctls: HashMap::new(), tmp: vec![] };
+    let mut st = St { walks: HashMap::new(), paths: HashMap::new(), handles: HashMap::new(), ctls: HashMap::new(), tmp: vec![] };
     if cfg!(feature = "embed") {
         let _ = std::fs::remove_dir_all(EMBED_DIR);
         let _ = std::fs::create_dir_all(EMBED_DIR);
@@ -442,11 +553,13 @@ fn main() {
             continue;
         }
         if line == "reset" {
+            #[cfg(feature = "asyncvfs")]
+            ASYNC.with(|a| *a.borrow_mut() = adrv::ASt::default());
             if cfg!(feature = "embed") {
                 let _ = std::fs::remove_dir_all(EMBED_DIR);
                 let _ = std::fs::create_dir_all(EMBED_DIR);
             }
-            st.handles.clear(); st.paths.clear(); st.ctls.clear();
+            st.handles.clear(); st.walks.clear(); st.paths.clear(); st.ctls.clear();
             for d in st.tmp.drain(..) { let _ = std::fs::remove_dir_all(d); }
             out.push_str(&format!("{} reset\n", i + 1));
             continue;
